@@ -35,6 +35,7 @@ import (
 )
 
 const shapeMemTreePending = "memtree-answers-committed-root-from-never-committed-update-nodes-disk-correct"
+const shapeMemTreeDurable = "memtree-committed-root-persisted-with-pointer-into-never-committed-update-record-missing-on-disk"
 
 type Cfg struct {
 	Name    string `json:"name"`
@@ -116,16 +117,17 @@ type Viol struct {
 }
 
 type SeqOut struct {
-	Idx       int               `json:"idx"`
-	Counters  map[string]int64  `json:"counters"`
-	Viols     []Viol            `json:"viols,omitempty"`
-	Log       []string          `json:"log"`
-	Committed map[string]mapKV  `json:"committed"`   // hex root -> content (for the fresh-process re-read)
-	Uncommit  map[string]mapKV  `json:"uncommitted"` // hex root -> content of rolled back / abandoned updates (not committed under that root)
-	Dir       string            `json:"dir"`
-	Cfg       Cfg               `json:"cfg"`
-	Keys      []string          `json:"keys"`
-	Extra     map[string]string `json:"extra,omitempty"`
+	Idx             int               `json:"idx"`
+	Counters        map[string]int64  `json:"counters"`
+	Viols           []Viol            `json:"viols,omitempty"`
+	Log             []string          `json:"log"`
+	Committed       map[string]mapKV  `json:"committed"`   // hex root -> content (for the fresh-process re-read)
+	Uncommit        map[string]mapKV  `json:"uncommitted"` // hex root -> content of rolled back / abandoned updates (not committed under that root)
+	Dir             string            `json:"dir"`
+	Cfg             Cfg               `json:"cfg"`
+	Keys            []string          `json:"keys"`
+	Extra           map[string]string `json:"extra,omitempty"`
+	UncommitHeights map[int64]int     `json:"uncommitted_heights,omitempty"`
 }
 
 type mapKV map[string]string
@@ -147,6 +149,9 @@ type seqRunner struct {
 	uniq      int
 	// never-committed (pending, rolled back) updates computed since the last (re)open of the store
 	uncommittedSinceRestart int
+	uncommittedHeights      map[int64]int // heights of never-committed updates computed since the last (re)open
+	everUncommittedHeights  map[int64]int // ... since the start of the history
+	lastMissing             [][]byte
 }
 
 func (r *seqRunner) violate(shape, format string, a ...any) {
@@ -186,6 +191,7 @@ func (r *seqRunner) readRoot(v *version, keys []string, why string) {
 
 // rawContent walks the persisted node graph of root on the raw DB (no node cache, no memTree).
 func (r *seqRunner) rawContent(root []byte) (m map[string]string, missing []string) {
+	r.lastMissing = nil
 	db := r.st.GetDB()
 	m = map[string]string{}
 	var rec func(h []byte)
@@ -193,6 +199,7 @@ func (r *seqRunner) rawContent(root []byte) (m map[string]string, missing []stri
 		v, err := db.Get(h)
 		if err != nil || len(v) == 0 {
 			missing = append(missing, hx(h))
+			r.lastMissing = append(r.lastMissing, append([]byte{}, h...))
 			return
 		}
 		var sn types.StoreNode
@@ -228,6 +235,25 @@ func (r *seqRunner) shapeOfReadFailure(v *version, base string) (string, string)
 		r.in.Cfg.MemTree, diskOK, missing, r.uncommittedSinceRestart)
 	if r.in.Cfg.MemTree && diskOK && r.uncommittedSinceRestart > 0 {
 		return shapeMemTreePending, facts
+	}
+	if r.in.Cfg.MemTree && r.in.Cfg.Prefix && len(missing) > 0 && len(r.lastMissing) > 0 {
+		// durable variant: every missing record carries the height prefix of a never-committed update of this history
+		all := true
+		var hs []int64
+		for _, k := range r.lastMissing {
+			var h int64 = -1
+			if len(k) > 16 && (bytes.HasPrefix(k, []byte("_mb_-")) || bytes.HasPrefix(k, []byte("_mh_-"))) {
+				fmt.Sscanf(string(k[5:15]), "%d", &h)
+			}
+			hs = append(hs, h)
+			if h < 0 || r.everUncommittedHeights[h] == 0 {
+				all = false
+			}
+		}
+		facts += fmt.Sprintf(", height prefixes of the missing records %v all equal to heights of never-committed updates of this history=%v", hs, all)
+		if all {
+			return shapeMemTreeDurable, facts
+		}
 	}
 	return base, facts
 }
@@ -475,6 +501,8 @@ func (r *seqRunner) run() {
 				}
 				r.noteDiff(m, string(root))
 				r.uncommittedSinceRestart++
+				r.uncommittedHeights[h]++
+				r.everUncommittedHeights[h]++
 			}
 			r.checkAll("after MemSet", kvKeys(kvs))
 		case x < 68 && len(pendRoots) > 0: // Commit
@@ -576,6 +604,7 @@ func (r *seqRunner) reopen() {
 	mavldb.VerifBResetGlobals()
 	r.pending = map[string]*pendingV{}
 	r.uncommittedSinceRestart = 0
+	r.uncommittedHeights = map[int64]int{}
 	r.st = openStore(r.in.Dir, r.in.Cfg)
 }
 
@@ -619,7 +648,7 @@ func childSeq(in []byte) (any, error) {
 		os.RemoveAll(si.Dir)
 		rng := lib.NewRng(si.Seed)
 		r := &seqRunner{in: si, rng: rng, committed: map[string]*version{}, pending: map[string]*pendingV{}, uncommit: map[string]mapKV{},
-			touched: map[string]map[string]bool{}, cnt: map[string]int64{}}
+			touched: map[string]map[string]bool{}, cnt: map[string]int64{}, uncommittedHeights: map[int64]int{}, everUncommittedHeights: map[int64]int{}}
 		r.keys = append(append([]string{}, lib.Pick(rng, seqKeys)...), "~never-written", "")
 		r.st = openStore(si.Dir, si.Cfg)
 		if p := guard(r.run); p != "" {
@@ -628,7 +657,7 @@ func childSeq(in []byte) (any, error) {
 		r.cnt["pending_abandoned"] += int64(len(r.pending))
 		guard(func() { r.st.Close() })
 		out := SeqOut{Idx: si.Idx, Counters: r.cnt, Viols: r.viols, Log: r.log, Dir: si.Dir, Cfg: si.Cfg, Keys: r.keys,
-			Committed: map[string]mapKV{}, Uncommit: map[string]mapKV{}}
+			Committed: map[string]mapKV{}, Uncommit: map[string]mapKV{}, UncommitHeights: r.everUncommittedHeights}
 		for rs, v := range r.committed {
 			out.Committed[hex.EncodeToString([]byte(rs))] = v.M
 		}
@@ -652,7 +681,10 @@ func childVerify(in []byte) (any, error) {
 		o := &outs[i]
 		mavldb.VerifBResetGlobals()
 		r := &seqRunner{in: &SeqIn{Idx: o.Idx, Dir: o.Dir, Cfg: o.Cfg, AllKey: true}, rng: lib.NewRng(1), committed: map[string]*version{}, uncommit: map[string]mapKV{},
-			touched: map[string]map[string]bool{}, cnt: map[string]int64{}, keys: o.Keys}
+			touched: map[string]map[string]bool{}, cnt: map[string]int64{}, keys: o.Keys, uncommittedHeights: map[int64]int{}, everUncommittedHeights: o.UncommitHeights}
+		if r.everUncommittedHeights == nil {
+			r.everUncommittedHeights = map[int64]int{}
+		}
 		r.step = -1
 		r.st = openStore(o.Dir, o.Cfg)
 		var roots []string
@@ -997,7 +1029,7 @@ func run(c *lib.Ctx) {
 
 	// ---- sequential
 	phase := os.Getenv("VERIF_C04_PHASE") // debugging aid: "seq" or "conc" runs one phase only (the run is then inconclusive)
-	nSeq := c.N(40, 600)
+	nSeq := c.N(40, 400)
 	if phase == "conc" {
 		nSeq = 0
 	}
@@ -1088,14 +1120,14 @@ func run(c *lib.Ctx) {
 	c.Extra("wall_seq_s", time.Since(tSeq).Seconds())
 
 	// ---- concurrent (-race)
-	nConc := c.N(6, 30)
+	nConc := c.N(6, 12)
 	if phase == "seq" {
 		nConc = 0
 	}
 	repeats := 3
 	concWorkers := 6
 	if !c.Quick() {
-		repeats = 6
+		repeats = 5
 		concWorkers = 6
 	}
 	concDir := filepath.Join(c.Tmp, "conc")
@@ -1110,7 +1142,7 @@ func run(c *lib.Ctx) {
 		base := ConcIn{Idx: 1000 + i, Cfg: cfgs[i%len(cfgs)], Writers: lib.Pick(rng, []int{8, 12, 16, 24, 32}), Parents: rng.Range(2, 3), DelayUs: lib.Pick(rng, []int{0, 300, 1500})}
 		base.Ops = 208 / base.Writers
 		if !c.Quick() {
-			base.Ops = 1200 / base.Writers
+			base.Ops = 640 / base.Writers
 		}
 		for r := 0; r < repeats; r++ {
 			in := base
